@@ -50,8 +50,31 @@ func (v *ClusterView) AddMember(member *NodeState) {
 	if ok && !member.IsNewerThan(existing) {
 		return
 	}
+	if !v.supersedeByAddress(member) {
+		return
+	}
 	v.Members[member.ID] = member.Clone()
 	v.recomputeCounts()
+}
+
+// supersedeByAddress 保证一个地址在视图中只对应一个实例：节点以新的 NodeID 在同一地址重启后（NodeID 默认每次启动随机生成），
+// 旧实例与新实例是两个不同 ID 的成员，若同时保留，按地址定位成员（刷新 LastSeen、选举 Leader）会在两者之间摇摆，
+// 旧实例会被新实例的心跳不断续期而永不移除。采纳 candidate 前移除同地址且启动更早的其他实例；
+// 若视图中已有同地址且启动更晚的实例，则 candidate 是过时信息，返回 false 表示不应采纳。
+func (v *ClusterView) supersedeByAddress(candidate *NodeState) bool {
+	if candidate.Address == "" {
+		return true
+	}
+	for id, m := range v.Members {
+		if m == nil || id == candidate.ID || m.Address != candidate.Address {
+			continue
+		}
+		if m.Timestamp > candidate.Timestamp {
+			return false
+		}
+		delete(v.Members, id)
+	}
+	return true
 }
 
 // IncrementVersion 在本地做出成员变更后调用，递增指定节点的版本向量分量，用于因果顺序与合并判断。
@@ -144,6 +167,9 @@ func (v *ClusterView) MergeFromWithOptions(other *ClusterView, opts MergeOptions
 			continue
 		}
 		if !ok || otherState.IsNewerThan(existing) {
+			if !v.supersedeByAddress(otherState) {
+				continue
+			}
 			v.Members[id] = otherState.Clone()
 			changed = true
 		}
